@@ -15,6 +15,17 @@ CASES = [
     ('apply ends when the code empties the array', 'a = [1,2,3]; a apply { a resize 0; 1 }', '[1]'),
     ('findIf gives the first index', '[1,2,3] findIf { _x == 3 }', '2'),
     ('findIf ends when the code empties the array', 'a = [1,2,3]; a findIf { a resize 0; false }', '-1'),
+    ('apply goes on over elements the code appends', 'a = [1,2,3]; a apply { if (_x < 3) then { a pushBack (_x * 10) }; _x }', '[1,2,3,10,20]'),
+    ('apply after shrinking and growing', 'a = [1,2,3,4]; a apply { if (_x == 1) then { a resize 2 }; if (_x == 2) then { a append [7,8,9] }; _x }', '[1,2,7,8,9]'),
+    ('count goes on over elements the code appends', 'a = [1,2]; { if (count a < 4) then { a pushBack 5 }; _x > 1 } count a', '3'),
+    ('select goes on over elements the code appends', 'a = [1,2]; a select { if (count a < 4) then { a pushBack 5 }; _x > 1 }', '[2,5,5]'),
+    ('findIf finds an element the code appended', 'a = [1,2]; a findIf { if (count a < 3) then { a pushBack 9 }; _x == 9 }', '2'),
+    ('for counts up', 'private _r = []; for "_i" from 1 to 3 do { _r pushBack _i }; _r', '[1,2,3]'),
+    ('for with a step', 'private _r = []; for "_i" from 0 to 10 step 5 do { _r pushBack _i }; _r', '[0,5,10]'),
+    ('for counts down', 'private _r = []; for "_i" from 3 to 1 step -1 do { _r pushBack _i }; _r', '[3,2,1]'),
+    ('for with from behind to runs nothing', 'private _r = 0; for "_i" from 1 to 0 do { _r = 1 }; _r', '0'),
+    ('for runs once when from equals to', 'private _r = 0; for "_i" from 2 to 2 do { _r = _r + 1 }; _r', '1'),
+    ('for uses the value the body left in the variable', 'private _r = []; for "_i" from 0 to 5 do { _r pushBack _i; _i = _i + 1 }; _r', '[0,2,4]'),
 ]
 def search(sqfvm):
     for (name, code, want) in CASES:
